@@ -30,10 +30,14 @@ impl InMessage {
             Message::Text(text) => {
                 let mut text: Vec<u8> = text.as_bytes().to_owned();
 
+                crate::common::check_json_nesting_depth(&text)?;
+
                 ::simd_json::serde::from_slice(&mut text).context("deserialize with serde")
             }
             Message::Binary(bytes) => {
                 let mut bytes = bytes.to_vec();
+
+                crate::common::check_json_nesting_depth(&bytes)?;
 
                 ::simd_json::serde::from_slice(&mut bytes[..]).context("deserialize with serde")
             }
